@@ -79,6 +79,12 @@ Theorem C12_binary : forall t, In t color_table -> c_kind t = KBinary ->
   (forall d, d <> 0 -> from_raw t d = bin_on) /\ bpp t = 1.
 Proof. exact c12_binary. Qed.
 
+(* the format is the documented one, i.e. the one the type's name states: "Rgb565" = 5/6/5 bits red first,
+   "Bgr565" blue first, "Gray4" = 4 bits; RGB types occupy the smallest whole number of bytes *)
+Theorem C12_names_document_layout : forall t, In t color_table ->
+  c_name t = documented_name t /\ (is_rgb t = true -> bpp t = 8 * ((used_bits t + 7) / 8)).
+Proof. exact c12_names_document_layout. Qed.
+
 (* the quantifier is not empty: 14 types, 1 binary, 3 gray, 6 RGB-ordered, 4 BGR-ordered, distinct names *)
 Theorem C12_table_census :
   length color_table = 14%nat /\
